@@ -60,6 +60,7 @@ func routerSeq(rng *rand.Rand, w *Writer) {
 			r.Publish(id, ev)
 			ops = append(ops, fmt.Sprintf("P%d:%d", id, ev))
 		}
+		w.Begin("router: operations performed so far: " + strings.Join(ops, ","))
 	}
 	// Publish has returned for every event, so each delivered event sits in a subscription's buffer or
 	// with its reader: wait until every buffer is empty and the readers' totals have stopped moving
